@@ -44,7 +44,7 @@ meta["confirmed"] = bool(democmd) and meta["demo_with_change"]["rc"] != 0 and me
 res = {}
 for c in checks:
     bins = os.environ.get("SEED_BINS", "vh").split()
-    p = subprocess.run(["python3", "/verif/lib/mut.py", c, os.path.join(dst, "patch.diff")] + bins, stdout=subprocess.PIPE, stderr=subprocess.STDOUT, text=True)
+    p = subprocess.run(["python3", os.path.join(os.environ.get("VERIF_SNAP", "/verif"), "lib/mut.py"), c, os.path.join(dst, "patch.diff")] + bins, stdout=subprocess.PIPE, stderr=subprocess.STDOUT, text=True)
     lines = [l for l in p.stdout.splitlines() if l.startswith(("VIOLATION", "KNOWN-FINDING", "check exit code", "TOOL ERROR")) or "does not" in l]
     res[c] = {"exit": next((l for l in lines if l.startswith("check exit code")), "?"), "violations": sum(1 for l in lines if l.startswith("VIOLATION")),
               "first": [l for l in lines if l.startswith("VIOLATION")][:2], "other": [l for l in lines if not l.startswith("VIOLATION")][:6]}
